@@ -1,5 +1,6 @@
 """C18 - listeners frame lines identically on every transport and account for all of them."""
 import json
+import genproof
 import random
 
 import e2e_engine as E2E
@@ -168,5 +169,10 @@ def run(rep, tier, seed, replay):
         rep.cov["rule"] += ("; plus, against the built binary (main.go's wiring of the three listeners): %d UDP bursts against a packet queue of 0-4 entries (packets = processed + dropped, "
                             "no line lost or doubled), the relay on every transport (%d runs: each non-empty line relayed once, in order), and %d datagram-order histories (a 1500-4500 line "
                             "packet that ends by setting a gauge, directly followed by packets that move it) and %d datagrams of 65507-65535 bytes" % (rep.extra.get("e2e_bursts", 0), rep.extra.get("e2e_relay_runs", 0), rep.extra.get("e2e_order_cases", 0), rep.extra.get("e2e_bigdatagram_cases", 0)))
+    if not replay:
+        # the listener model has no time input: the source must not have one either; if it does, look for the pause that shows it
+        genproof.clock_obligation(rep, "C18_clock.v", "a listener (pkg/listener or package main) asks the clock something - a wall-clock read, a timer or an I/O deadline - "
+                                  "while the model frames a stream independently of how the sender spaces it in time", ("pkg/listener.", ".", "main."),
+                                  search=lambda: E2E.run_tcp_pauses(rep, "C18", seed, [3000, 11000, 31000, 61000, 65000, 125000] if tier == "quick" else [3000, 11000, 31000, 61000, 65000, 125000, 305000, 610000]))
     rep.sample(dict(case=cases[0][:200], impl=impl[0][:300]))
     rep.sample(dict(case=cases[-1][:200], impl=impl[-1][:300]))
